@@ -68,9 +68,19 @@ def valTok (w : String) : Option PyVal :=
   match w.toList with
   | 's' :: rest => (textTok (String.ofList rest)).map PyVal.str
   | 'b' :: rest => (bytesTok (String.ofList rest)).map PyVal.bytes
+  -- int / bool / float arguments: the word carries `str(value)`, which is what `f'"{value}"'` formats
+  | 'i' :: rest | 't' :: rest | 'f' :: rest => (textTok (String.ofList rest)).map PyVal.str
   | _ => none
 
 def fields (w : String) : List String := w.splitOn ":"
+
+/-- a direct `set_option` call whose value word is a number / boolean -/
+def isNumSo (w : String) : Bool :=
+  match w.splitOn ":" with
+  | ["so", _, v] => match v.toList with
+    | 'i' :: _ | 't' :: _ | 'f' :: _ => true
+    | _ => false
+  | _ => false
 
 def readVals : Nat → List String → Option (List PyVal × List String)
   | 0, ws => some ([], ws)
@@ -459,7 +469,11 @@ def driverStepM : List String → String
   | "build" :: ws =>
     match readAllCalls ws with
     | none => "bad-op"
-    | some c => buildOut c
+    -- `num=T`: with a number / boolean given to `set_option` the harness also builds the calls with `str(value)` in its place and
+    -- reports whether the trees agree; in the model both are the same `Calls`
+    | some c =>
+      let o := buildOut c
+      if ws.any isNumSo && !o.startsWith "exc " then o ++ " | num=T" else o
   | "both" :: s :: ws =>
     match textTok s, readAllCalls ws with
     | some src, some c => bothOut src c
